@@ -86,7 +86,11 @@ func (s *Server) RoundTrip(req *http.Request) (*http.Response, error) {
 		return nil, a.TransportErr
 	}
 	if a.HTTPStatus != 0 && a.HTTPStatus != 200 {
-		return resp(req, a.HTTPStatus, []byte(fmt.Sprint("status ", a.HTTPStatus)), false), nil
+		body := []byte(fmt.Sprint("status ", a.HTTPStatus))
+		if a.Raw != nil {
+			body = a.Raw // an error page of the server's choosing
+		}
+		return resp(req, a.HTTPStatus, body, a.NoLength), nil
 	}
 	if a.Raw != nil {
 		rp := resp(req, 200, a.Raw, a.NoLength)
